@@ -112,7 +112,7 @@ def scanItems (o : ListOpts) (tmpl : Option Seq) :
         if isPrefixOf t.base it.name ∧ isSuffixOf t.ext it.name ∧
            t.base.length + t.ext.length ≤ it.name.length then
           let mid := (it.name.drop t.base.length).take (it.name.length - t.base.length - t.ext.length)
-          if (frameAt mid).map (·.2) = some [] then
+          if (frameAt mid).map (·.2) = some [] ∧ (atoi mid).isSome then
             scanItems o tmpl rest (addFrame o.style t.dir t.base t.ext mid bs) files
           else scanItems o tmpl rest bs files
         else scanItems o tmpl rest bs files
